@@ -210,7 +210,8 @@ def text_read(fmt, endian, f):
 # ----------------------------------------------------------------------------- arc writer
 def arc_write(files, rng, padded=True, permute_bodies=True, unaligned=False, gaps=False, count_first=True,
               extra_labels=True, shuffle_tables=False, drop=None, bad_name=None, bad_range=None, count_delta=0,
-              junk_text=False, raw_offset=None, dup_strings=False, tail=0.0, end_exact=False, share=False, empty_last=False):
+              junk_text=False, raw_offset=None, dup_strings=False, tail=0.0, end_exact=False, share=False, empty_last=False,
+              indices="seq"):
     """files: [(name bytes, body bytes)] in RECORD order.  Returns (image, expected) with expected = 'ok' or the
     name of the error the property demands.  Knobs: header padding, body placement (order, alignment, gaps),
     Count before/after Info, extra labels; error variants: drop = 'count' | 'info' (label missing),
@@ -220,7 +221,18 @@ def arc_write(files, rng, padded=True, permute_bodies=True, unaligned=False, gap
     ends exactly at the end of the data region (address + size = size of the data: the boundary of "inside"),
     share = a body whose bytes already occur among the bodies written so far may reuse that range (shared / overlapping
     ranges), empty_last = among the bodies placed after the tables the empty ones come last (so that an empty file's start
-    address equals the size of the data region when end_exact is set).  The knobs draw random numbers only when switched on."""
+    address equals the size of the data region when end_exact is set).  indices = what the records' index field holds:
+    'seq' (0, 1, 2 ...), 'zero' (all 0), 'dup' (some values repeated), 'random' (arbitrary 32-bit values) - the property
+    keys entries by NAME; the index field carries no meaning for extraction (seeded change C16-3 collected records in a map
+    keyed by it and lost records sharing a value).  The knobs draw random numbers only when switched on."""
+    if indices == "zero":
+        idx = [0] * len(files)
+    elif indices == "dup":
+        idx = [rng.randint(0, max(0, len(files) // 2)) for _ in files]
+    elif indices == "random":
+        idx = [rng.choice([0, 1, 0x7FFFFFFF, 0xFFFFFFFF, rng.getrandbits(32)]) for _ in files]
+    else:
+        idx = list(range(len(files)))
     d = bytearray()
     if padded:
         d += bytes(0x60)
@@ -276,7 +288,7 @@ def arc_write(files, rng, padded=True, permute_bodies=True, unaligned=False, gap
                 off = raw_offset[1]
             elif i not in offs:
                 patch[i] = len(d) + 8
-            d.extend(struct.pack("<III", i, size, off & 0xFFFFFFFF))
+            d.extend(struct.pack("<III", idx[i], size, off & 0xFFFFFFFF))
 
     if count_first:
         put_count()
